@@ -141,6 +141,16 @@ def job_ctor_domain(reps):
     return held(summary=f"constructor domain reps={reps}: {eng.paths} paths {eng.outcomes}", sample=dict(reps=reps, outcomes=eng.outcomes), **common)
 
 
+def settled(row, earlier):
+    """the improved-bottom-left resting condition of a placed box w.r.t. the boxes placed before it in the same bin: it can move neither
+    down (it stands on the floor or on a box it overlaps horizontally) nor left (it touches the wall or a box it overlaps vertically).
+    Every row of a decoded packing satisfies it at the moment it is placed, and later rows never move earlier ones."""
+    _, _b, l, bt, r, t = row
+    down = [bt == 0] + [z3.And(e[5] == bt, e[2] < r, l < e[4]) for e in earlier]
+    left = [l == 0] + [z3.And(e[4] == l, e[3] < t, bt < e[5]) for e in earlier]
+    return z3.And(z3.Or(*down), z3.Or(*left))
+
+
 def item_step_block():
     """body of the item loop of encoding 1's `_decode` plus the NAMES of its variables by role, read from the working tree's source
     (parameters by position; loop index / item from the `for` target; current bin id from the `return`; first row of the current
@@ -203,6 +213,7 @@ def job_item_step(K, with_reference=False, timeout_s=1800):
             for j in range(i):
                 _, b2, l2, bt2, r2, t2 = X[j]
                 cs.append(z3.Or(r <= l2, r2 <= l, t <= bt2, t2 <= bt))
+            cs.append(settled(X[i], [X[j] for j in range(i)]))       # resting condition (part of the invariant; re-established below)
         eng.assume(z3.And(*cs))
         item_id = fresh_int("item")
         eng.assume(z3.Or(item_id.e == 1, item_id.e == -1))
@@ -224,7 +235,9 @@ def job_item_step(K, with_reference=False, timeout_s=1800):
             _, b2, l2, bt2, r2, t2 = [lift(v) for v in pre_rows[j]]
             post.append(z3.Or(b != b2, r <= l2, r2 <= l, t <= bt2, t2 <= bt))
             post.append(z3.And(*[lift(y[j, k]) == lift(pre_rows[j][k]) for k in range(6)]))       # earlier rows untouched
-        eng.oblige(z3.And(*post), "item step keeps the packing feasible and the bookkeeping consistent", now=True)
+        newrow = (idd, b, l, bt, r, t)
+        post.append(z3.If(b == bin_id.e, settled(newrow, [[lift(v) for v in pre_rows[j]] for j in range(K)]), z3.And(l == 0, bt == 0)))
+        eng.oblige(z3.And(*post), "item step keeps the packing feasible, settled and the bookkeeping consistent", now=True)
         if with_reference:
             wq = z3.If(item_id.e < 0, h0.e, w0.e)
             hq = z3.If(item_id.e < 0, w0.e, h0.e)
@@ -238,7 +251,7 @@ def job_item_step(K, with_reference=False, timeout_s=1800):
             eng.oblige(exp, "item lands where the documented bottom-left rule puts it", now=True)
         return "stepped"
     eng = Engine(timeout_ms=120000, deadline=time.time() + timeout_s)
-    eng.prefer = [z3.And(z3.Int("W") <= 40, z3.Int("H") <= 40), z3.And(z3.Int("W") <= 2000, z3.Int("H") <= 60)]
+    eng.prefer = [z3.And(z3.Int("W") <= 10, z3.Int("H") <= 10), z3.And(z3.Int("W") <= 40, z3.Int("H") <= 40), z3.And(z3.Int("W") <= 2000, z3.Int("H") <= 60)]
     ok = eng.explore(h)
     common = dict(paths=eng.paths, queries=dict(sat=eng.n_sat, unsat=eng.n_unsat, unknown=eng.unknown), solver_s=round(eng.t_solver, 2), vacuity=dict(outcomes=eng.outcomes))
     if eng.violations:
@@ -336,6 +349,7 @@ def job_item_step2(K, pattern, with_reference=False, timeout_s=1800):
                 if pattern[i] == pattern[j]:
                     _, b2, l2, bt2, r2, t2 = X[j]
                     cs.append(z3.Or(r <= l2, r2 <= l, t <= bt2, t2 <= bt))
+            cs.append(settled(X[i], [X[j] for j in range(i) if pattern[j] == pattern[i]]))       # resting condition within its bin
         eng.assume(z3.And(*cs))
         bs = SymArray(starts + [fresh_int(f"bsg{k}") for k in range(K + 1 - B)], (K + 1,), name="bin_starts")
         be = SymArray(ends + [fresh_int(f"beg{k}") for k in range(K + 1 - B)], (K + 1,), name="bin_ends")
@@ -363,6 +377,9 @@ def job_item_step2(K, pattern, with_reference=False, timeout_s=1800):
             post.append(lift(bs[k]) == starts[k])
             post.append(lift(be[k]) == z3.If(b == k + 1, K + 1, ends[k]))
         post.append(z3.Implies(b == B + 1, z3.And(lift(bs[B]) == K, lift(be[B]) == K + 1)))
+        newrow = (idd, b, l, bt, r, t)
+        for bb in range(1, B + 1):
+            post.append(z3.Implies(b == bb, settled(newrow, [[lift(v) for v in pre_rows[j]] for j in range(K) if pattern[j] == bb])))
         for k in range(B + 1, K + 1):
             post.append(z3.And(lift(bs[k]) == lift(pre_bs[k]), lift(be[k]) == lift(pre_be[k])))
         eng.oblige(z3.And(*post), "item step keeps the packing feasible and the index ranges consistent", now=True)
@@ -380,7 +397,7 @@ def job_item_step2(K, pattern, with_reference=False, timeout_s=1800):
             eng.oblige(exp, "item lands in the first bin, at the place, the documented rule prescribes", now=True)
         return "stepped"
     eng = Engine(timeout_ms=120000, deadline=time.time() + timeout_s, max_paths=20000)
-    eng.prefer = [z3.And(z3.Int("W") <= 40, z3.Int("H") <= 40), z3.And(z3.Int("W") <= 2000, z3.Int("H") <= 60)]
+    eng.prefer = [z3.And(z3.Int("W") <= 10, z3.Int("H") <= 10), z3.And(z3.Int("W") <= 40, z3.Int("H") <= 40), z3.And(z3.Int("W") <= 2000, z3.Int("H") <= 60)]
     ok = eng.explore(h)
     common = dict(paths=eng.paths, queries=dict(sat=eng.n_sat, unsat=eng.n_unsat, unknown=eng.unknown), solver_s=round(eng.t_solver, 2), vacuity=dict(outcomes=eng.outcomes))
     if eng.violations:
@@ -399,43 +416,34 @@ def job_item_step2(K, pattern, with_reference=False, timeout_s=1800):
 
 
 def _search_decode_witness(md, with_reference, enc=1):
-    """bounded concrete search for a whole-decoder input exhibiting a step counterexample: small instances with the bin and item
-    sizes of the model (and small variations), all signed permutations; checked for feasibility (and against the reference)"""
-    import itertools
-    from . import ibl_reference as R
+    """Whole-decoder witness for an inductive-step counterexample, searched with the REAL compiled decoder in one child process:
+    (0) the model's boxes in row order followed by the new item, every sign pattern; (1) every sequence over the model's box sizes;
+    (2) random small instances on the coordinate grid of the model.  Checked for feasibility (and against the reference)."""
     W, H = md.get("W", 5), md.get("H", 5)
     if W > 60 or H > 60:
         return None
-    sizes = set()
     K = 0
+    ordered = []
     while f"y_{K * 6}" in md:
         l, bt, r, t = md.get(f"y_{K * 6 + 2}", 0), md.get(f"y_{K * 6 + 3}", 0), md.get(f"y_{K * 6 + 4}", 0), md.get(f"y_{K * 6 + 5}", 0)
         if 0 < r - l <= max(W, H) and 0 < t - bt <= max(W, H):
-            sizes.add((r - l, t - bt))
+            ordered.append((r - l, t - bt))
         K += 1
-    sizes.add((md.get("inst_0", 1), md.get("inst_1", 1)))
-    sizes = [s for s in sizes if not (s[0] > min(W, H) and s[1] > min(W, H)) and s[0] <= max(W, H) and s[1] <= max(W, H)][:4]
-    tried = 0
-    for k in range(1, min(5, K + 2)):
-        for combo in itertools.combinations_with_replacement(sizes, k):
-            items = [(w, h, 1) for (w, h) in combo]
-            for x in P.signed_perms([1] * k):
-                tried += 1
-                if tried > 3000:
-                    return None
-                wq = dict(enc=enc, W=W, H=H, items=[list(i) for i in items], x=list(x))
-                bad, info = replay(wq)
-                if bad:
-                    wq["observed"] = info
-                    wq["kind"] = "feasibility"
-                    return wq
-                if with_reference and info.get("rows") is not None:
-                    exp, nb = (R.ref_decode_1 if enc == 1 else R.ref_decode_2)(list(x), [(w, h) for (w, h, _) in items], W, H, 10 * k + 10)
-                    if [list(r) for r in exp] != info["rows"] or nb != info["n_bins"]:
-                        wq["observed"] = dict(decoded=info["rows"], expected=[list(r) for r in exp])
-                        wq["kind"] = "reference"
-                        return wq
-    return None
+    ordered = ordered[:-1] if len(ordered) == K and K > 0 else ordered     # the last row is the (garbage) destination of the new item
+    ordered.append((md.get("inst_0", 1), md.get("inst_1", 1)))
+    ok_size = lambda s_: not (s_[0] > min(W, H) and s_[1] > min(W, H)) and s_[0] <= max(W, H) and s_[1] <= max(W, H)
+    ordered = [s_ for s_ in ordered if ok_size(s_)]
+    xs, ys = {0, W}, {0, H}
+    for j in range(K):
+        xs |= {md.get(f"y_{j * 6 + 2}", 0), md.get(f"y_{j * 6 + 4}", 0)}
+        ys |= {md.get(f"y_{j * 6 + 3}", 0), md.get(f"y_{j * 6 + 5}", 0)}
+    xs = sorted(v for v in xs if 0 <= v <= W)
+    ys = sorted(v for v in ys if 0 <= v <= H)
+    ws = sorted({b_ - a_ for a_ in xs for b_ in xs if b_ > a_} | {md.get("inst_0", 1), md.get("inst_1", 1), 1})
+    hs = sorted({b_ - a_ for a_ in ys for b_ in ys if b_ > a_} | {md.get("inst_0", 1), md.get("inst_1", 1), 1})
+    grid = [(w, h) for w in ws for h in hs if ok_size((w, h)) and ((w <= W and h <= H) or (h <= W and w <= H))]
+    wit, tried = P.grid_search(enc, W, H, grid[:60], with_reference, budget_s=90, ordered=ordered)
+    return wit
 
 
 def job_selftest(seed):
@@ -503,7 +511,7 @@ def jobs(tier):
     import os
     seed = int(os.environ.get("VERIF_SEED", "0") or 0)
     js = [Job("selftest", job_selftest, dict(seed=seed), "selftest", 180)]
-    for K in (1, 2, 3) + ((4, 5) if tier == "thorough" else ()):
+    for K in (1, 2, 3, 4) + ((5,) if tier == "thorough" else ()):
         js.append(Job(f"item-step/enc1/K{K}", job_item_step, dict(K=K, timeout_s=1500 if tier == "quick" else 3300), "feasible_packing", 1700 if tier == "quick" else 3500, weight=K, optional=True))
     for K in (1, 2, 3) + ((4,) if tier == "thorough" else ()):
         for pat in growth_patterns(K):
